@@ -9,17 +9,23 @@ RULE = ("paired runs: the same sequence of recognised line forms (every single-s
         "non-trivial = a pair of runs whose secret assignments differ")
 
 
+USED = set()       # keys (decrypted plaintext for $9$, the string otherwise) of every secret handed out in the current pair of runs
+
+
+def mk(rng, cls, variant=None):
+    """a fresh secret of class cls that is not THE SAME SECRET as any other of this pair of runs (two $9$ strings with one plaintext are one secret)"""
+    while True:
+        t = textgen.make_secret(rng, cls, variant)
+        k = secretlib.secret_key(t)
+        if k not in USED and t not in USED:
+            USED.add(k)
+            USED.add(t)
+            return t
+
+
 def renamed(rng, s, mapping):
     if s not in mapping:
-        cls = textgen.classify(s)
-        v = textgen.same_class_variant(s)
-        while True:
-            t = textgen.make_secret(rng, cls, v)
-            if cls == "text" and len(t) != len(s):
-                pass
-            if t != s and t not in mapping.values():
-                break
-        mapping[s] = t
+        mapping[s] = mk(rng, textgen.classify(s), textgen.same_class_variant(s))
     return mapping[s]
 
 
@@ -30,10 +36,11 @@ def run(ctx):
     per = 12
     groups = [tpls[k:k + per] for k in range(0, len(tpls), per)] * (1 if q else 8)
     for g in groups:
-        pool = [textgen.make_secret(rng, cls) for cls in textgen.CLASSES for _ in range(2)]
+        USED.clear()
+        pool = [mk(rng, cls) for cls in textgen.CLASSES for _ in range(2)]
         la, lb, ms, mp = [], [], [], {}
         for tpl, sample in g:
-            s = rng.choice(pool + [textgen.make_secret(rng, textgen.classify(sample))])
+            s = rng.choice(pool + [mk(rng, textgen.classify(sample))])
             while tpl.startswith("set community") and textgen.classify(s) == "numeric":      # numeric BGP communities are skipped on purpose
                 s = rng.choice(pool)
             enc = rng.choice(secretlib.ENCLOSE[:7]) if '"' not in tpl and rng.random() < 0.3 else ("", "")
@@ -53,7 +60,7 @@ def run(ctx):
             ms.append((tpl, s, s2, ("", ""), ""))
         # standalone hash-shaped tokens surrounded by arbitrary keywords
         for cls in ("md5", "juniper"):
-            s = textgen.make_secret(rng, cls)
+            s = mk(rng, cls)
             s2 = renamed(rng, s, mp)
             kw = " ".join(rng.choice(linegen.ORDINARY) for _ in range(2))
             la.append("%s %s %s\n" % (kw, s, rng.choice(linegen.ORDINARY)))
@@ -62,7 +69,7 @@ def run(ctx):
         # optional parts of the line forms (privilege / level numbers) in front of the secret
         for tpl in ("enable secret level 15 5 {}", "username bob privilege 15 secret 5 {}", "enable password level 7 {}", "standby 3 authentication md5 key-string 7 {}"):
             cls = "md5" if " 5 {}" in tpl else "type7" if " 7 {}" in tpl else "text"
-            s = textgen.make_secret(rng, cls)
+            s = mk(rng, cls)
             s2 = renamed(rng, s, mp)
             la.append(secretlib.build(tpl, s))
             lb.append(secretlib.build(tpl, s2))
@@ -72,7 +79,7 @@ def run(ctx):
             if tpl.rstrip().endswith("{}") or '"' in tpl or tpl.startswith("set community"):
                 continue
             for cls in ("numeric", "hex"):
-                s = textgen.make_secret(rng, cls)
+                s = mk(rng, cls)
                 s2 = renamed(rng, s, mp)
                 la.append(secretlib.build(tpl, s))
                 lb.append(secretlib.build(tpl, s2))
@@ -88,7 +95,7 @@ def run(ctx):
         # two secrets recognised by the SAME pattern on one line (compact one-line blocks)
         for tpl in ("username alice password {} ; username bob password {}", "radius-server {{ 10.0.0.1 secret \"{}\"; 10.0.0.2 secret \"{}\"; }}",
                     "domain-password {} ; area-password {}", "snmp-server community {} RO ; snmp-server community {} RW"):
-            a, b = textgen.make_secret(rng, "text"), textgen.make_secret(rng, "text")
+            a, b = mk(rng, "text"), mk(rng, "text")
             a2, b2 = renamed(rng, a, mp), renamed(rng, b, mp)
             la.append(tpl.replace("{{", "{").replace("}}", "}").replace("{}", a, 1).replace("{}", b, 1) + "\n")
             lb.append(tpl.replace("{{", "{").replace("}}", "}").replace("{}", a2, 1).replace("{}", b2, 1) + "\n")
